@@ -91,8 +91,16 @@ def check(ctx):
                 var = q[0].split(':', 1)[1]
                 d_ = defs.get(var)
                 capv = None
-                if isinstance(d_, ast.Call) and ast.unparse(d_.func) == '_WorkOrder' and len(d_.args) == 4:
-                    a0, a1, a2, a3 = [ast.unparse(x) for x in d_.args]
+                wo_args = None
+                if isinstance(d_, ast.Call) and ast.unparse(d_.func) == '_WorkOrder' and P.has_cls('_WorkOrder'):
+                    wfn = P.method(P.cls('_WorkOrder'), '__init__')[1]
+                    wparams = [a_.arg for a_ in wfn.args.args][1:]
+                    bnd = dict(zip(wparams, d_.args))
+                    bnd.update({k.arg: k.value for k in d_.keywords if k.arg})
+                    if len(wparams) == 4 and set(bnd) == set(wparams):
+                        wo_args = [ast.unparse(bnd[p_]) for p_ in wparams]
+                if wo_args is not None:
+                    a0, a1, a2, a3 = wo_args
                     capd = defs.get(a2)
                     capv = ast.unparse(capd) if capd is not None else a2
                     if (a0, a1, a3) != (params[0], params[1], params[2]) or capv != f'{params[0]}.get_work_order_capacity({params[1]})':
